@@ -3,6 +3,9 @@
 // impls the verified text needs to compile but which are not under contract (listed in evidence)
 impl Clone for BDD { fn clone(&self) -> Self { unimplemented!() } }
 impl Clone for NamedSymbol { fn clone(&self) -> Self { unimplemented!() } }
+impl Clone for SymbolicBDD { fn clone(&self) -> Self { unimplemented!() } }
+impl Clone for SymbolicBDDToken { fn clone(&self) -> Self { unimplemented!() } }
+impl Clone for ReferenceContents { fn clone(&self) -> Self { unimplemented!() } }
 impl std::hash::Hash for NamedSymbol { fn hash<H: std::hash::Hasher>(&self, state: &mut H) { unimplemented!() } }
 impl fmt::Display for NamedSymbol { fn fmt(&self, f: &mut fmt::Formatter<'_>) -> fmt::Result { unimplemented!() } }
 fn main() {}
